@@ -1,0 +1,63 @@
+// Copyright (c) 2016-2024 by Richard A. Wilkes. All rights reserved.
+//
+// This Source Code Form is subject to the terms of the Mozilla Public
+// License, version 2.0. If a copy of the MPL was not distributed with
+// this file, You can obtain one at http://mozilla.org/MPL/2.0/.
+//
+// This Source Code Form is "Incompatible With Secondary Licenses", as
+// defined by the Mozilla Public License, version 2.0.
+
+package internal
+
+import (
+	"errors"
+	"io/fs"
+	"os"
+	"path/filepath"
+	"strings"
+
+	"github.com/richardwilkes/toolbox/errs"
+)
+
+// Confine returns an error if creating 'path', which lexically lies below 'root', would take effect outside of 'root'
+// because a symbolic link lies on the way. If 'noFollow' is true, it is also an error for 'path' itself to be an existing
+// symbolic link.
+func Confine(root, path string, noFollow bool) error {
+	realRoot, err := evalExisting(root)
+	if err != nil {
+		return errs.Wrap(err)
+	}
+	var realDir string
+	if realDir, err = evalExisting(filepath.Dir(path)); err != nil {
+		return errs.Wrap(err)
+	}
+	if realDir != realRoot && !strings.HasPrefix(realDir, strings.TrimSuffix(realRoot, string(filepath.Separator))+string(filepath.Separator)) {
+		return errs.Newf("Path outside of root is not permitted: %s", path)
+	}
+	if noFollow {
+		if fi, lerr := os.Lstat(path); lerr == nil && fi.Mode()&os.ModeSymlink != 0 {
+			return errs.Newf("Writing through a symbolic link is not permitted: %s", path)
+		}
+	}
+	return nil
+}
+
+// evalExisting resolves the symbolic links in the longest existing prefix of p and appends the remainder unchanged.
+func evalExisting(p string) (string, error) {
+	rest := ""
+	for {
+		resolved, err := filepath.EvalSymlinks(p)
+		if err == nil {
+			return filepath.Join(resolved, rest), nil
+		}
+		if !errors.Is(err, fs.ErrNotExist) {
+			return "", err
+		}
+		parent := filepath.Dir(p)
+		if parent == p {
+			return "", err
+		}
+		rest = filepath.Join(filepath.Base(p), rest)
+		p = parent
+	}
+}
